@@ -70,21 +70,25 @@ package document
 // entry is a fresh byte array of the same length; the source map and its byte arrays are only read; entries of
 // the destination that are not overwritten stay.
 //@ func (*TemplateEngine).cloneAllDocumentParts
-//@ props C17
+//@ props C17, C10
 //@ ghost B int
 //@ requires source != nil && dest != nil && dest.parts != nil && above(dest.parts, B) && source.parts != dest.parts
-//@ modifies map:string:[]byte, cell:byte
+//@ modifies map:string:[]byte
 //@ ensures unchangedBelow(B)
 //@ ensures forall k string :: has(dest.parts, k) <==> (old(has(dest.parts, k)) || (has(source.parts, k) && k != "word/document.xml"))
 //@ ensures forall k string :: has(source.parts, k) && k != "word/document.xml" ==> len(dest.parts[k]) == len(source.parts[k]) && arr(dest.parts[k]) >= old(allocBound())
 //@ ensures forall k string :: has(dest.parts, k) && !(has(source.parts, k) && k != "word/document.xml") ==> dest.parts[k] == old(dest.parts[k])
+//@ ensures forall k string, i int :: has(source.parts, k) && k != "word/document.xml" && 0 <= i && i < len(source.parts[k]) ==> dest.parts[k][i] == old(source.parts[k][i])
 //@ loop 1
 //@   invariant unchangedBelow(B) && source.parts != nil
+//@   invariant unchangedExcept("map:string:[]byte")
 //@   invariant forall k string :: has(source.parts, k) == old(has(source.parts, k)) && source.parts[k] == old(source.parts[k])
 //@   invariant forall k string :: has(dest.parts, k) <==> (old(has(dest.parts, k)) || (seen(k) && k != "word/document.xml"))
 //@   invariant forall k string :: seen(k) ==> has(source.parts, k)
 //@   invariant forall k string :: seen(k) && k != "word/document.xml" ==> len(dest.parts[k]) == len(source.parts[k]) && arr(dest.parts[k]) >= old(allocBound())
 //@   invariant forall k string :: has(dest.parts, k) && !(seen(k) && k != "word/document.xml") ==> dest.parts[k] == old(dest.parts[k])
+//@   invariant forall k string :: seen(k) && k != "word/document.xml" ==> arr(dest.parts[k]) < allocBound() && (len(dest.parts[k]) > 0 ==> arr(dest.parts[k]) != 0)
+//@   invariant forall k string, i int :: seen(k) && k != "word/document.xml" && 0 <= i && i < len(source.parts[k]) ==> dest.parts[k][i] == old(source.parts[k][i])
 
 // Body-element kinds the clone knows.
 //@ spec isTable(x any) bool = typeIs(x, "*Table")
@@ -104,8 +108,11 @@ package document
 //@ func (*TemplateEngine).cloneDocument
 //@ props C17
 //@ ghost B int = allocBound()
-//@ requires te != nil && source != nil && source.Body != nil && elemsOK(source.Body.Elements) && sectRefsOK(source.Body.Elements)
+//@ ignore-ensures deepcopy
+//@ requires te != nil && source != nil && source.Body != nil && elemsOK(source.Body.Elements) && sectRefsOK(source.Body.Elements) && mediaFresh(source) && source.nextImageID >= 0
 //@ modifies nothing
+//@ ensures docParts(result)
+//@ ensures mediaFresh(result)
 //@ ensures fresh(result) && result.Body != nil && fresh(result.Body) && freshArr(result.Body.Elements)
 //@ ensures result.parts != nil && fresh(result.parts) && (forall k string :: has(result.parts, k) ==> freshArr(result.parts[k]))
 //@ ensures result.documentRelationships != nil && fresh(result.documentRelationships) && freshArr(result.documentRelationships.Relationships)
@@ -115,6 +122,9 @@ package document
 //@ ensures result.nextImageID == source.nextImageID
 //@ ensures len(result.Body.Elements) == len(source.Body.Elements)
 //@ ensures forall j int :: 0 <= j && j < len(source.Body.Elements) && old(isKnownKind(source.Body.Elements[j])) ==> sameKind(result.Body.Elements[j], old(source.Body.Elements[j])) && fresh(result.Body.Elements[j])
+//@ ensures forall j int :: 0 <= j && j < len(result.Body.Elements) && isPara(result.Body.Elements[j]) ==> !isElem(result.Body.Elements[j].(*Paragraph))
+//@ ensures forall j int :: 0 <= j && j < len(result.Body.Elements) && isTable(result.Body.Elements[j]) ==> !isElem(result.Body.Elements[j].(*Table)) && above(result.Body.Elements[j].(*Table).Rows, old(allocBound())) && tagged(result.Body.Elements[j].(*Table).Rows, "TableRow")
+//@ ensures closedAbove(old(allocBound()))
 //@ ensures forall j int :: 0 <= j && j < len(source.Body.Elements) && !old(isKnownKind(source.Body.Elements[j])) ==> fresh(result.Body.Elements[j])
 //@ loop 1
 //@   invariant 0 <= #i && #i <= len(source.Body.Elements) && unchangedHeap()
@@ -126,5 +136,11 @@ package document
 //@   invariant doc.relationships != nil && fresh(doc.relationships) && freshArr(doc.relationships.Relationships)
 //@   invariant doc.styleManager != nil && fresh(doc.styleManager) && doc.numberingManager == nil && doc.footnoteManager == nil
 //@   invariant forall j int :: 0 <= j && j < #i && old(isKnownKind(source.Body.Elements[j])) ==> sameKind(doc.Body.Elements[j], old(source.Body.Elements[j])) && fresh(doc.Body.Elements[j])
+//@   invariant forall j int :: 0 <= j && j < #i && isPara(doc.Body.Elements[j]) ==> !isElem(doc.Body.Elements[j].(*Paragraph))
+//@   invariant forall j int :: 0 <= j && j < #i && isTable(doc.Body.Elements[j]) ==> !isElem(doc.Body.Elements[j].(*Table)) && above(doc.Body.Elements[j].(*Table).Rows, old(allocBound())) && tagged(doc.Body.Elements[j].(*Table).Rows, "TableRow")
+//@   invariant closedRows(old(allocBound()))
+//@   invariant closedCells(old(allocBound()))
+//@   invariant closedTables(old(allocBound()))
+// LAST invariant on purpose (its obligation class is the recorded known finding C17 "unknown element kinds are shared"):
 //@   invariant forall j int :: 0 <= j && j < #i && !old(isKnownKind(source.Body.Elements[j])) ==> fresh(doc.Body.Elements[j])
 //@   decreases len(source.Body.Elements) - #i
